@@ -1,4 +1,4 @@
-INIT Init
-NEXT Next
+INIT GenInit
+NEXT GenNext
 CONSTANTS MaxFull = 3 MaxLen = 4
 CHECK_DEADLOCK FALSE
